@@ -1,6 +1,6 @@
-(* C07 / C05, generator side of StmtTrip: for every brace-free statement the generator MODEL
+(* C07 / C05, generator side of StmtTrip: for every statement of StmtTrip.st (blocks included) the generator MODEL
    (_generate_stmt, visit_If / visit_While / visit_DoWhile / visit_For / visit_Return / visit_Break /
-   visit_Continue / visit_Goto / visit_EmptyStatement) prints [gst rp lv x] at indentation level lv and
+   visit_Continue / visit_Goto / visit_EmptyStatement / visit_Compound) prints [gst rp lv x] at indentation level lv and
    restores the indentation level; that text with blanks and newlines removed is the concatenation of
    the spellings of the token sequence [stoks rp x]. *)
 From Coq Require Import String.
@@ -30,16 +30,24 @@ Fixpoint embS (x: st) : node :=
   | SWhile c b => VNode C_While [embC c; embS b] None
   | SDo b c => VNode C_DoWhile [embC c; embS b] None
   | SFor i c n b => VNode C_For [oembC i; oembC c; oembC n; embS b] None
+  | SBlock items => VNode C_Compound [match items with [] => VNone | _ => VList (map embS items) end] None
   end.
 
 Definition ind (lv: Z) : str := repeat 32%N (Z.to_nat lv).
 Definition nl : str := [10%N].
 Definition isif (x: st) : bool := match x with SIf _ _ _ => true | _ => false end.
 Definition isexpr (x: st) : bool := match x with SExpr _ => true | _ => false end.
+Definition isblock (x: st) : bool := match x with SBlock _ => true | _ => false end.
 
-(* vis: what visit prints for the statement node; gst: what _generate_stmt(add_indent=True) prints *)
-Fixpoint vis (lv: Z) (x: st) : str :=
-  let gst := fun y => ind (lv + 2) ++ (if isexpr y then vis lv y ++ s ";" ++ nl else if isif y then vis lv y else vis lv y ++ nl) in
+(* what _generate_stmt makes of the text v that visit printed for y, with the indentation string pre *)
+Definition wrapg (pre: str) (y: st) (v: str) : str :=
+  if isblock y then v else pre ++ (if isexpr y then v ++ s ";" ++ nl else if isif y then v else v ++ nl).
+
+Definition ot1 (o: option ex) : str := match o with Some e => ptext e | None => [] end.
+Definition ot2 (o: option ex) : str := match o with Some e => s " " ++ ptext e | None => [] end.
+
+(* vis x lv: what visit prints for the statement node at indentation level lv *)
+Fixpoint vis (x: st) (lv: Z) : str :=
   match x with
   | SExpr e => ptext e
   | SEmpty => s ";"
@@ -48,17 +56,15 @@ Fixpoint vis (lv: Z) (x: st) : str :=
   | SBreak => s "break;"
   | SContinue => s "continue;"
   | SGoto l => s "goto " ++ l ++ s ";"
-  | SIf c th None => s "if (" ++ ptext c ++ s ")" ++ nl ++ gst th
-  | SIf c th (Some el) => s "if (" ++ ptext c ++ s ")" ++ nl ++ gst th ++ ind lv ++ s "else" ++ nl ++ gst el
-  | SWhile c b => s "while (" ++ ptext c ++ s ")" ++ nl ++ gst b
-  | SDo b c => s "do" ++ nl ++ gst b ++ ind lv ++ s "while (" ++ ptext c ++ s ");"
-  | SFor i c n b =>
-    s "for (" ++ (match i with Some e => ptext e | None => [] end) ++ s ";" ++
-    (match c with Some e => s " " ++ ptext e | None => [] end) ++ s ";" ++
-    (match n with Some e => s " " ++ ptext e | None => [] end) ++ s ")" ++ nl ++ gst b
+  | SIf c th None => s "if (" ++ ptext c ++ s ")" ++ nl ++ wrapg (ind (lv + 2)) th (vis th lv)
+  | SIf c th (Some el) => s "if (" ++ ptext c ++ s ")" ++ nl ++ wrapg (ind (lv + 2)) th (vis th lv) ++ ind lv ++ s "else" ++ nl ++ wrapg (ind (lv + 2)) el (vis el lv)
+  | SWhile c b => s "while (" ++ ptext c ++ s ")" ++ nl ++ wrapg (ind (lv + 2)) b (vis b lv)
+  | SDo b c => s "do" ++ nl ++ wrapg (ind (lv + 2)) b (vis b lv) ++ ind lv ++ s "while (" ++ ptext c ++ s ");"
+  | SFor i c n b => s "for (" ++ ot1 i ++ s ";" ++ ot2 c ++ s ";" ++ ot2 n ++ s ")" ++ nl ++ wrapg (ind (lv + 2)) b (vis b lv)
+  | SBlock items => ind lv ++ s "{" ++ nl ++ concat_str (map (fun y => wrapg (ind (lv + 2)) y (vis y (lv + 2))) items) ++ ind lv ++ s "}" ++ nl
   end.
-Definition gst (lv: Z) (y: st) : str :=
-  ind (lv + 2) ++ (if isexpr y then vis lv y ++ s ";" ++ nl else if isif y then vis lv y else vis lv y ++ nl).
+Definition gst (lv: Z) (y: st) : str := wrapg (ind (lv + 2)) y (vis y lv).    (* _generate_stmt(y, add_indent=True) at level lv *)
+Definition gs0 (lv: Z) (y: st) : str := wrapg (ind lv) y (vis y lv).          (* _generate_stmt(y) at level lv *)
 
 (* fuel that suffices *)
 Definition osize (o: option ex) : nat := match o with Some e => size e | None => 0 end.
@@ -69,6 +75,7 @@ Fixpoint cost (x: st) : nat :=
   | SIf c th el => 3 * size c + cost th + match el with Some e => cost e | None => 0 end + 2
   | SWhile c b | SDo b c => 3 * size c + cost b + 2
   | SFor i c n b => 3 * osize i + 3 * osize c + 3 * osize n + cost b + 2
+  | SBlock items => list_sum (map cost items) + 2
   | _ => 2
   end.
 
@@ -85,35 +92,54 @@ Proof. reflexivity. Qed.
 Lemma semi_emb : forall e, stmt_with_semicolon C (embC e) = true.
 Proof. destruct e; reflexivity. Qed.
 
-(* _generate_stmt(add_indent=True) from what visit prints *)
-Lemma gs_run : forall f x lv t, visit C rp f (embS x) lv = GOk (t, lv) -> t = vis lv x ->
-  generate_stmt C rp (S f) (embS x) true lv = GOk (gst lv x, lv).
+(* the tail of _generate_stmt once the indentation string is known *)
+Lemma gs_tail : forall f x lv pre v, visit C rp f (embS x) lv = GOk (v, lv) ->
+  (if stmt_with_semicolon C (embS x) then gbind (visit C rp f (embS x)) (fun t => gret (pre ++ t ++ s ";" ++ [10%N]))
+   else if is_c C C_Compound (embS x) then visit C rp f (embS x)
+   else if is_c C C_If (embS x) then gbind (visit C rp f (embS x)) (fun t => gret (pre ++ t))
+   else gbind (visit C rp f (embS x)) (fun t => gret (pre ++ t ++ [10%N]))) lv = GOk (wrapg pre x v, lv).
 Proof.
-  intros f x lv t Hv ->. rewrite gs_eq. unfold gbind at 1. unfold add_indent at 1. unfold gbind at 1. unfold make_indent, get_indent. unfold gbind at 1.
-  unfold gret at 1. unfold gbind at 1. unfold add_indent at 1. replace (lv + 2 + -2)%Z with lv by lia.
-  unfold gst, ind. destruct x as [e| |o| | |l|c th el|c b|b c|i c nx b]; cbn [embS isexpr isif].
-  - rewrite semi_emb. unfold gbind. cbn [embS] in Hv. rewrite Hv. reflexivity.
+  intros f x lv pre v Hv. unfold wrapg. destruct x as [e| |o| | |l|c th el|c b|b c|i c nx b|items]; cbn [embS isexpr isif isblock] in *.
+  - rewrite semi_emb. unfold gbind. rewrite Hv. reflexivity.
   - change (stmt_with_semicolon C (VNode C_EmptyStatement [] None)) with false. cbv iota.
     change (is_c C C_Compound (VNode C_EmptyStatement [] None)) with false. change (is_c C C_If (VNode C_EmptyStatement [] None)) with false. cbv iota.
-    unfold gbind. cbn [embS] in Hv. rewrite Hv. reflexivity.
+    unfold gbind. rewrite Hv. reflexivity.
   - change (stmt_with_semicolon C (VNode C_Return [oembC o] None)) with false. cbv iota.
     change (is_c C C_Compound (VNode C_Return [oembC o] None)) with false. change (is_c C C_If (VNode C_Return [oembC o] None)) with false. cbv iota.
-    unfold gbind. cbn [embS] in Hv. rewrite Hv. reflexivity.
-  - cbn [embS] in Hv. change (stmt_with_semicolon C (VNode C_Break [] None)) with false. cbv iota.
+    unfold gbind. rewrite Hv. reflexivity.
+  - change (stmt_with_semicolon C (VNode C_Break [] None)) with false. cbv iota.
     change (is_c C C_Compound (VNode C_Break [] None)) with false. change (is_c C C_If (VNode C_Break [] None)) with false. cbv iota. unfold gbind. rewrite Hv. reflexivity.
-  - cbn [embS] in Hv. change (stmt_with_semicolon C (VNode C_Continue [] None)) with false. cbv iota.
+  - change (stmt_with_semicolon C (VNode C_Continue [] None)) with false. cbv iota.
     change (is_c C C_Compound (VNode C_Continue [] None)) with false. change (is_c C C_If (VNode C_Continue [] None)) with false. cbv iota. unfold gbind. rewrite Hv. reflexivity.
-  - cbn [embS] in Hv. change (stmt_with_semicolon C (VNode C_Goto [VStr l] None)) with false. cbv iota.
+  - change (stmt_with_semicolon C (VNode C_Goto [VStr l] None)) with false. cbv iota.
     change (is_c C C_Compound (VNode C_Goto [VStr l] None)) with false. change (is_c C C_If (VNode C_Goto [VStr l] None)) with false. cbv iota. unfold gbind. rewrite Hv. reflexivity.
-  - cbn [embS] in Hv. set (N := VNode C_If _ None) in *. change (stmt_with_semicolon C N) with false. cbv iota.
+  - set (N := VNode C_If _ None) in *. change (stmt_with_semicolon C N) with false. cbv iota.
     change (is_c C C_Compound N) with false. change (is_c C C_If N) with true. cbv iota. unfold gbind. rewrite Hv. reflexivity.
-  - cbn [embS] in Hv. set (N := VNode C_While _ None) in *. change (stmt_with_semicolon C N) with false. cbv iota.
+  - set (N := VNode C_While _ None) in *. change (stmt_with_semicolon C N) with false. cbv iota.
     change (is_c C C_Compound N) with false. change (is_c C C_If N) with false. cbv iota. unfold gbind. rewrite Hv. reflexivity.
-  - cbn [embS] in Hv. set (N := VNode C_DoWhile _ None) in *. change (stmt_with_semicolon C N) with false. cbv iota.
+  - set (N := VNode C_DoWhile _ None) in *. change (stmt_with_semicolon C N) with false. cbv iota.
     change (is_c C C_Compound N) with false. change (is_c C C_If N) with false. cbv iota. unfold gbind. rewrite Hv. reflexivity.
-  - cbn [embS] in Hv. set (N := VNode C_For _ None) in *. change (stmt_with_semicolon C N) with false. cbv iota.
+  - set (N := VNode C_For _ None) in *. change (stmt_with_semicolon C N) with false. cbv iota.
     change (is_c C C_Compound N) with false. change (is_c C C_If N) with false. cbv iota. unfold gbind. rewrite Hv. reflexivity.
+  - set (N := VNode C_Compound _ None) in *. change (stmt_with_semicolon C N) with false. cbv iota.
+    change (is_c C C_Compound N) with true. cbv iota. exact Hv.
 Qed.
+
+Lemma gs_run_t : forall f x lv v, visit C rp f (embS x) lv = GOk (v, lv) ->
+  generate_stmt C rp (S f) (embS x) true lv = GOk (wrapg (ind (lv + 2)) x v, lv).
+Proof.
+  intros f x lv v Hv. rewrite gs_eq. unfold gbind at 1. unfold add_indent at 1. unfold gbind at 1. unfold make_indent, get_indent. unfold gbind at 1.
+  unfold gret at 1. unfold gbind at 1. unfold add_indent at 1. replace (lv + 2 + -2)%Z with lv by lia.
+  apply (gs_tail f x lv (repeat 32%N (Z.to_nat (lv + 2))) v Hv).
+Qed.
+Lemma gs_run_f : forall f x lv v, visit C rp f (embS x) lv = GOk (v, lv) ->
+  generate_stmt C rp (S f) (embS x) false lv = GOk (wrapg (ind lv) x v, lv).
+Proof.
+  intros f x lv v Hv. rewrite gs_eq. unfold gbind at 1. unfold gret at 1. unfold gbind at 1. unfold make_indent, get_indent. unfold gbind at 1.
+  unfold gret at 1. unfold gbind at 1. unfold gret at 1.
+  apply (gs_tail f x lv (repeat 32%N (Z.to_nat lv)) v Hv).
+Qed.
+
 Lemma visit_if : forall f c t e co,
   visit C rp (S f) (VNode C_If [c; t; e] co) =
   gbind (if truthy_v C c then visit C rp f c else gret []) (fun cs => gbind (generate_stmt C rp f t true) (fun ts =>
@@ -145,23 +171,43 @@ Lemma visit_return : forall f e co,
   visit C rp (S f) (VNode C_Return [e] co) =
   if truthy_v C e then gbind (visit C rp f e) (fun x => gret (s "return" ++ s " " ++ x ++ s ";")) else gret (s "return;").
 Proof. reflexivity. Qed.
+Lemma visit_compound : forall f bi co,
+  visit C rp (S f) (VNode C_Compound [bi] co) =
+  gbind make_indent (fun i0 => gbind (add_indent 2) (fun _ =>
+  gbind (if truthy_v C bi then gbind (as_list C bi) (fun l => gbind (mapM (fun x => generate_stmt C rp f x false) l) (fun xs => gret (concat_str xs))) else gret []) (fun body =>
+  gbind (add_indent (-2)) (fun _ => gbind make_indent (fun i2 =>
+  gret (i0 ++ s "{" ++ [10%N] ++ body ++ i2 ++ s "}" ++ [10%N])))))).
+Proof. reflexivity. Qed.
 
 Lemma truthy_emb : forall e, truthy_v C (embC e) = true.
 Proof. destruct e; reflexivity. Qed.
 Lemma truthy_embS : forall x, truthy_v C (embS x) = true.
 Proof. destruct x; try reflexivity. apply truthy_emb. Qed.
 
-Lemma cost_pos : forall x, 2 <= cost x.
-Proof. destruct x; cbn [cost]; lia. Qed.
+Lemma mapM_gs : forall f items L, (forall y, In y items -> generate_stmt C rp f (embS y) false L = GOk (gs0 L y, L)) ->
+  mapM (fun x => generate_stmt C rp f x false) (map embS items) L = GOk (map (gs0 L) items, L).
+Proof.
+  intros f items L. induction items as [|y r IH]; intros H; [reflexivity|]. cbn [map mapM].
+  unfold gbind at 1. rewrite (H y (or_introl eq_refl)). unfold gbind at 1. rewrite IH by (intros z Hz; apply H; right; exact Hz). reflexivity.
+Qed.
 
-Theorem vis_prints : forall n x, ssize x <= n -> swf x -> forall fuel lv, cost x <= fuel -> visit C rp fuel (embS x) lv = GOk (vis lv x, lv).
+Lemma swfl_in : forall (l: list st) y, swfl l -> In y l -> swf y.
+Proof. induction l as [|z r IH]; intros y Hw Hy; [destruct Hy|]. destruct Hw as [Hz Hr]. destruct Hy as [->|Hy]; [exact Hz|apply IH; assumption]. Qed.
+
+Lemma in_csum : forall (l: list st) a, In a l -> cost a <= list_sum (map cost l).
+Proof.
+  induction l as [|x r IH]; intros a H; [destruct H|]. change (list_sum (map cost (x :: r))) with (cost x + list_sum (map cost r)).
+  destruct H as [E|H]; [subst a; lia|]. specialize (IH a H). lia.
+Qed.
+
+Theorem vis_prints : forall n x, ssize x <= n -> swf x -> forall fuel lv, cost x <= fuel -> visit C rp fuel (embS x) lv = GOk (vis x lv, lv).
 Proof.
   induction n as [|n IH]; intros x Hn Hw fuel lv Hf; [destruct x; cbn in Hn; lia|].
   assert (HG: forall y f, ssize y <= n -> swf y -> cost y < f -> generate_stmt C rp f (embS y) true lv = GOk (gst lv y, lv)).
-  { intros y f Hy Hwy Hfy. destruct f as [|f]; [lia|]. eapply gs_run; [apply IH; [exact Hy|exact Hwy|lia]|reflexivity]. }
+  { intros y f Hy Hwy Hfy. destruct f as [|f]; [lia|]. apply gs_run_t. apply IH; [exact Hy|exact Hwy|lia]. }
   assert (HE: forall e f, wf e -> 3 * size e <= f -> visit C rp f (embC e) lv = GOk (ptext e, lv)).
   { intros e f He Hfe. exact (visit_prints_x C rp (size e) e (le_n _) He f lv Hfe). }
-  destruct x as [e| |o| | |l|c th el|c b|b c|i c nx b]; cbn [ssize] in Hn; cbn [swf] in Hw; cbn [cost] in Hf; cbn [embS].
+  destruct x as [e| |o| | |l|c th el|c b|b c|i c nx b|items]; cbn [ssize] in Hn; cbn [swf] in Hw; cbn [cost] in Hf; cbn [embS].
   - apply HE; [exact Hw|lia].
   - destruct fuel as [|fu]; [lia|]. reflexivity.
   - destruct fuel as [|fu]; [lia|]. rewrite visit_return. destruct o as [e|]; cbn [oembC osize owf] in *; [|reflexivity].
@@ -181,20 +227,35 @@ Proof.
     unfold gbind at 1. rewrite (HG b fu) by (try exact Hb; lia). unfold gbind at 1. unfold make_indent, get_indent. unfold gbind at 1. unfold gret at 1.
     rewrite truthy_emb. unfold gbind at 1. rewrite (HE c fu Hc) by lia. reflexivity.
   - destruct Hw as (Hi & Hc & Hnx & Hb). destruct fuel as [|fu]; [lia|]. rewrite visit_for.
-    assert (E1: (if truthy_v C (oembC i) then visit C rp fu (oembC i) else gret []) lv = GOk (match i with Some e => ptext e | None => [] end, lv)).
-    { destruct i as [e|]; cbn [oembC osize owf] in *; [rewrite truthy_emb; apply HE; [exact Hi|lia]|reflexivity]. }
-    assert (E2: (if truthy_v C (oembC c) then gbind (visit C rp fu (oembC c)) (fun x => gret (s " " ++ x)) else gret []) lv = GOk (match c with Some e => s " " ++ ptext e | None => [] end, lv)).
-    { destruct c as [e|]; cbn [oembC osize owf] in *; [rewrite truthy_emb; unfold gbind; rewrite (HE e fu Hc) by lia; reflexivity|reflexivity]. }
-    assert (E3: (if truthy_v C (oembC nx) then gbind (visit C rp fu (oembC nx)) (fun x => gret (s " " ++ x)) else gret []) lv = GOk (match nx with Some e => s " " ++ ptext e | None => [] end, lv)).
-    { destruct nx as [e|]; cbn [oembC osize owf] in *; [rewrite truthy_emb; unfold gbind; rewrite (HE e fu Hnx) by lia; reflexivity|reflexivity]. }
+    assert (E1: (if truthy_v C (oembC i) then visit C rp fu (oembC i) else gret []) lv = GOk (ot1 i, lv)).
+    { destruct i as [e|]; cbn [oembC osize owf ot1] in *; [rewrite truthy_emb; apply HE; [exact Hi|lia]|reflexivity]. }
+    assert (E2: (if truthy_v C (oembC c) then gbind (visit C rp fu (oembC c)) (fun x => gret (s " " ++ x)) else gret []) lv = GOk (ot2 c, lv)).
+    { destruct c as [e|]; cbn [oembC osize owf ot2] in *; [rewrite truthy_emb; unfold gbind; rewrite (HE e fu Hc) by lia; reflexivity|reflexivity]. }
+    assert (E3: (if truthy_v C (oembC nx) then gbind (visit C rp fu (oembC nx)) (fun x => gret (s " " ++ x)) else gret []) lv = GOk (ot2 nx, lv)).
+    { destruct nx as [e|]; cbn [oembC osize owf ot2] in *; [rewrite truthy_emb; unfold gbind; rewrite (HE e fu Hnx) by lia; reflexivity|reflexivity]. }
     unfold gbind at 1. rewrite E1. unfold gbind at 1. rewrite E2. unfold gbind at 1. rewrite E3.
     unfold gbind at 1. rewrite (HG b fu) by (try exact Hb; lia). reflexivity.
+  - (* block *)
+    destruct fuel as [|fu]; [lia|]. rewrite visit_compound.
+    unfold gbind at 1. unfold make_indent at 1, get_indent. unfold gbind at 1. unfold gret at 1.
+    unfold gbind at 1. unfold add_indent at 1.
+    destruct items as [|y0 r0].
+    + cbn [truthy_v]. unfold gbind at 1. unfold gret at 1. unfold gbind at 1. unfold add_indent at 1. replace (lv + 2 + -2)%Z with lv by lia.
+      unfold gbind at 1. unfold make_indent, get_indent. unfold gbind at 1. unfold gret. cbn [vis map concat_str]. reflexivity.
+    + set (items := y0 :: r0) in *. change (truthy_v C (VList (map embS items))) with true. cbv iota.
+      unfold gbind at 1. unfold gbind at 1. unfold as_list at 1. unfold gret at 1. unfold gbind at 1.
+      assert (HM: mapM (fun x => generate_stmt C rp fu x false) (map embS items) (lv + 2)%Z = GOk (map (gs0 (lv + 2)) items, (lv + 2)%Z)).
+      { apply mapM_gs. intros y Hy. assert (Hwy: swf y) by (exact (swfl_in items y Hw Hy)).
+        pose proof (in_ssum items y Hy) as Hsy. pose proof (in_csum items y Hy) as Hcy.
+        destruct fu as [|fu']; [lia|]. apply gs_run_f. apply IH; [lia|exact Hwy|lia]. }
+      rewrite HM. unfold gret at 1. unfold gbind at 1. unfold add_indent at 1. replace (lv + 2 + -2)%Z with lv by lia.
+      unfold gbind at 1. unfold make_indent, get_indent. unfold gbind at 1. unfold gret. cbn [vis]. reflexivity.
 Qed.
 
 (* what _generate_stmt prints for a statement in a sub-statement position *)
 Theorem gst_prints : forall x, swf x -> forall fuel lv, cost x < fuel -> generate_stmt C rp fuel (embS x) true lv = GOk (gst lv x, lv).
 Proof.
-  intros x Hw fuel lv Hf. destruct fuel as [|f]; [lia|]. eapply gs_run; [apply (vis_prints (ssize x) x (le_n _) Hw); lia|reflexivity].
+  intros x Hw fuel lv Hf. destruct fuel as [|f]; [lia|]. apply gs_run_t. apply (vis_prints (ssize x) x (le_n _) Hw). lia.
 Qed.
 End GS.
 
@@ -215,83 +276,96 @@ Fixpoint sexprs (Q: ex -> Prop) (x: st) : Prop :=
   | SIf c th el => Q c /\ sexprs Q th /\ match el with Some e => sexprs Q e | None => True end
   | SWhile c b | SDo b c => Q c /\ sexprs Q b
   | SFor i c n b => oall Q i /\ oall Q c /\ oall Q n /\ sexprs Q b
+  | SBlock items => (fix al (l: list st) : Prop := match l with [] => True | y :: r => sexprs Q y /\ al r end) items
   | _ => True
   end.
+Definition sexprsl (Q: ex -> Prop) (l: list st) : Prop :=
+  (fix al (l: list st) : Prop := match l with [] => True | y :: r => sexprs Q y /\ al r end) l.
 
 (* an expression whose spellings contain neither blanks nor newlines *)
 Definition eok (rp: bool) (e: ex) : Prop := wf e /\ ids_nb e /\ filter nn (spell (xt rp e)) = spell (xt rp e).
 Lemma eok_text : forall rp e, eok rp e -> despace2 (ptext rp e) = spell (xt rp e).
 Proof. intros rp e (Hw & Hn & Hl). unfold despace2. rewrite (ptext_tokens rp (size e) e (le_n _) Hw Hn). exact Hl. Qed.
 
-Definition vtxt (rp: bool) (lv: Z) (x: st) : str := if isexpr x then vis rp lv x ++ s ";" else vis rp lv x.
-
-Lemma gst_vtxt : forall rp lv x, despace2 (gst rp lv x) = despace2 (vtxt rp lv x).
+(* the statement's own text: what visit printed, plus the `;` that _generate_stmt adds to an expression *)
+Definition vt (y: st) (v: str) : str := if isexpr y then v ++ s ";" else v.
+Lemma wrapg_text : forall pre y v, despace2 pre = [] -> despace2 (wrapg pre y v) = despace2 (vt y v).
 Proof.
-  intros rp lv x. unfold gst, vtxt. rewrite despace2_app, despace2_ind. cbn [app].
-  destruct (isexpr x); [rewrite !despace2_app; reflexivity|]. destruct (isif x); [reflexivity|]. rewrite despace2_app. unfold nl. cbn. rewrite app_nil_r. reflexivity.
+  intros pre y v Hp. unfold wrapg, vt. destruct (isblock y) eqn:Eb; [destruct y; try discriminate Eb; reflexivity|].
+  rewrite despace2_app, Hp. cbn [app]. destruct (isexpr y); [rewrite !despace2_app; unfold nl; cbn; rewrite ?app_nil_r; reflexivity|].
+  destruct (isif y); [reflexivity|]. rewrite despace2_app. unfold nl. cbn. rewrite ?app_nil_r. reflexivity.
 Qed.
 
-Definition ot1 (rp: bool) (o: option ex) : str := match o with Some e => ptext rp e | None => [] end.
-Definition ot2 (rp: bool) (o: option ex) : str := match o with Some e => s " " ++ ptext rp e | None => [] end.
 Lemma oall_text : forall rp o, oall (eok rp) o -> despace2 (ot1 rp o) = spell (oxt rp o).
 Proof. intros rp [e|] H; [apply eok_text; exact H|reflexivity]. Qed.
 Lemma oall_text_sp : forall rp o, oall (eok rp) o -> despace2 (ot2 rp o) = spell (oxt rp o).
 Proof. intros rp [e|] H; [unfold ot2; rewrite despace2_app; cbn [oxt]; rewrite (eok_text rp e H); reflexivity|reflexivity]. Qed.
-
-Lemma vis_if0 : forall rp lv c th, vis rp lv (SIf c th None) = s "if (" ++ ptext rp c ++ s ")" ++ nl ++ gst rp lv th.
-Proof. reflexivity. Qed.
-Lemma vis_if1 : forall rp lv c th el, vis rp lv (SIf c th (Some el)) = s "if (" ++ ptext rp c ++ s ")" ++ nl ++ gst rp lv th ++ ind lv ++ s "else" ++ nl ++ gst rp lv el.
-Proof. reflexivity. Qed.
-Lemma vis_while : forall rp lv c b, vis rp lv (SWhile c b) = s "while (" ++ ptext rp c ++ s ")" ++ nl ++ gst rp lv b.
-Proof. reflexivity. Qed.
-Lemma vis_do : forall rp lv b c, vis rp lv (SDo b c) = s "do" ++ nl ++ gst rp lv b ++ ind lv ++ s "while (" ++ ptext rp c ++ s ");".
-Proof. reflexivity. Qed.
-Lemma vis_for : forall rp lv i c n b, vis rp lv (SFor i c n b) =
-  s "for (" ++ ot1 rp i ++ s ";" ++ ot2 rp c ++ s ";" ++ ot2 rp n ++ s ")" ++ nl ++ gst rp lv b.
-Proof. reflexivity. Qed.
-
 Lemma spell_cons : forall k v y, spell ((k, v) :: y) = v ++ spell y.
 Proof. reflexivity. Qed.
 
+Lemma concat_text : forall rp (f: st -> str) items, (forall y, In y items -> despace2 (f y) = spell (stoks rp y)) ->
+  despace2 (concat_str (map f items)) = spell (concat (map (stoks rp) items)).
+Proof.
+  intros rp f items. induction items as [|y r IH]; intros H; [reflexivity|]. cbn [map concat_str concat].
+  rewrite despace2_app, spell_app, (H y (or_introl eq_refl)), IH by (intros z Hz; apply H; right; exact Hz). reflexivity.
+Qed.
+Lemma sexprsl_in : forall Q (l: list st) y, sexprsl Q l -> In y l -> sexprs Q y.
+Proof. intros Q. induction l as [|z r IH]; intros y Hw Hy; [destruct Hy|]. destruct Hw as [Hz Hr]. destruct Hy as [->|Hy]; [exact Hz|apply IH; assumption]. Qed.
+
 (* the generated statement text, blanks and newlines removed, is the concatenation of the spellings of [stoks rp x] *)
-Theorem gst_tokens : forall rp n x, ssize x <= n -> sexprs (eok rp) x -> forall lv, despace2 (vtxt rp lv x) = spell (stoks rp x).
+Theorem vis_tokens : forall rp n x, ssize x <= n -> sexprs (eok rp) x -> forall lv, despace2 (vt x (vis rp x lv)) = spell (stoks rp x).
 Proof.
   intros rp. induction n as [|n IH]; intros x Hn Hx lv; [destruct x; cbn in Hn; lia|].
-  assert (HG: forall y, ssize y <= n -> sexprs (eok rp) y -> despace2 (gst rp lv y) = spell (stoks rp y)).
-  { intros y Hy Hsy. rewrite gst_vtxt. apply IH; assumption. }
-  destruct x as [e| |o| | |l|c th el|c b|b c|i c nx b]; cbn [ssize] in Hn; cbn [sexprs] in Hx; unfold vtxt; cbn [isexpr stoks].
-  - cbn [vis]. rewrite despace2_app, spell_app, (eok_text rp e Hx). reflexivity.
+  assert (HG0: forall y L L', ssize y <= n -> sexprs (eok rp) y -> despace2 (wrapg (ind L') y (vis rp y L)) = spell (stoks rp y)).
+  { intros y L L' Hy Hsy. rewrite wrapg_text by apply despace2_ind. apply IH; assumption. }
+  assert (HG: forall y L, ssize y <= n -> sexprs (eok rp) y -> despace2 (wrapg (ind (L + 2)) y (vis rp y L)) = spell (stoks rp y)).
+  { intros y L. apply HG0. }
+  destruct x as [e| |o| | |l|c th el|c b|b c|i c nx b|items]; cbn [ssize] in Hn; cbn [sexprs] in Hx; unfold vt; cbn [isexpr stoks vis].
+  - rewrite despace2_app, spell_app, (eok_text rp e Hx). reflexivity.
   - reflexivity.
-  - destruct o as [e|]; cbn [oall oxt vis] in *; [|reflexivity]. rewrite !despace2_app, (eok_text rp e Hx). unfold kw. rewrite spell_cons, spell_app. reflexivity.
+  - destruct o as [e|]; cbn [oall oxt] in *; [|reflexivity]. rewrite !despace2_app, (eok_text rp e Hx). unfold kw. rewrite spell_cons, spell_app. reflexivity.
   - reflexivity.
   - reflexivity.
-  - cbn [vis]. rewrite !despace2_app, Hx. unfold kw. rewrite !spell_cons. reflexivity.
+  - rewrite !despace2_app, Hx. unfold kw. rewrite !spell_cons. reflexivity.
   - destruct Hx as (Hc & Hth & Hel). unfold kw. rewrite !spell_cons, spell_app, spell_cons. destruct el as [el|].
-    + rewrite vis_if1, !despace2_app, despace2_ind, (eok_text rp c Hc), (HG th ltac:(lia) Hth), (HG el ltac:(lia) Hel). rewrite spell_app, spell_cons. reflexivity.
-    + rewrite vis_if0, !despace2_app, (eok_text rp c Hc), (HG th ltac:(lia) Hth). rewrite app_nil_r. reflexivity.
-  - destruct Hx as (Hc & Hb). unfold kw. rewrite !spell_cons, spell_app, spell_cons. rewrite vis_while, !despace2_app, (eok_text rp c Hc), (HG b ltac:(lia) Hb). reflexivity.
+    + rewrite !despace2_app, despace2_ind, (eok_text rp c Hc), (HG th lv ltac:(lia) Hth), (HG el lv ltac:(lia) Hel). rewrite spell_app, spell_cons. reflexivity.
+    + rewrite !despace2_app, (eok_text rp c Hc), (HG th lv ltac:(lia) Hth). rewrite app_nil_r. reflexivity.
+  - destruct Hx as (Hc & Hb). unfold kw. rewrite !spell_cons, spell_app, spell_cons. rewrite !despace2_app, (eok_text rp c Hc), (HG b lv ltac:(lia) Hb). reflexivity.
   - destruct Hx as (Hc & Hb). unfold kw. rewrite !spell_cons, spell_app, !spell_cons, spell_app.
-    rewrite vis_do, !despace2_app, despace2_ind, (eok_text rp c Hc), (HG b ltac:(lia) Hb). reflexivity.
+    rewrite !despace2_app, despace2_ind, (eok_text rp c Hc), (HG b lv ltac:(lia) Hb). reflexivity.
   - destruct Hx as (Hi & Hc & Hnx & Hb). unfold kw. rewrite !spell_cons, spell_app, spell_cons, spell_app, spell_cons, spell_app, spell_cons.
-    rewrite vis_for, !despace2_app, (oall_text rp i Hi), (oall_text_sp rp c Hc), (oall_text_sp rp nx Hnx), (HG b ltac:(lia) Hb). reflexivity.
+    rewrite !despace2_app, (oall_text rp i Hi), (oall_text_sp rp c Hc), (oall_text_sp rp nx Hnx), (HG b lv ltac:(lia) Hb). reflexivity.
+  - unfold kw. rewrite spell_cons, spell_app. rewrite !despace2_app, !despace2_ind. cbn [app].
+    rewrite (concat_text rp _ items); [reflexivity|]. intros y Hy. apply HG0; [pose proof (in_ssum items y Hy); lia|exact (sexprsl_in _ items y Hx Hy)].
 Qed.
+
+Theorem gst_tokens : forall rp x, sexprs (eok rp) x -> forall lv, despace2 (gst rp lv x) = spell (stoks rp x).
+Proof. intros rp x Hx lv. unfold gst. rewrite wrapg_text by apply despace2_ind. exact (vis_tokens rp (ssize x) x (le_n _) Hx lv). Qed.
 
 (* ---- the theorems apply to something ---- *)
 Definition ex_s : st :=
   SFor (Some (XAsg (s2l "=") (XId (s2l "i")) (XConst K_INT_CONST_DEC (s2l "0") (s2l "int")))) (Some (XBin (s2l "<") (XId (s2l "i")) (XId (s2l "n")))) (Some (XPost (s2l "++") (XId (s2l "i"))))
-    (SIf (XCall (XId (s2l "f")) [XId (s2l "i")]) (SIf (XId (s2l "a")) (SReturn (Some (XId (s2l "i")))) (Some SBreak)) (Some (SDo (SExpr (XPre (s2l "--") (XId (s2l "n")))) (XId (s2l "n"))))).
+    (SBlock [SIf (XCall (XId (s2l "f")) [XId (s2l "i")]) (SIf (XId (s2l "a")) (SReturn (Some (XId (s2l "i")))) (Some SBreak)) (Some (SDo (SBlock [SExpr (XPre (s2l "--") (XId (s2l "n"))); SBlock []]) (XId (s2l "n"))));
+             SGoto (s2l "out")]).
 Example statement_example :
-  swf ex_s /\ generate_stmt nat false 60 (embS nat ex_s) true 0%Z =
-    GOk (s2l "  for (i = 0; i < n; i++)
+  swf ex_s /\ exists t, generate_stmt nat false 80 (embS nat ex_s) true 0%Z = GOk (t, 0%Z) /\ despace2 t = spell (stoks false ex_s) /\
+  t = s2l "  for (i = 0; i < n; i++)
+{
   if (f(i))
-  if (a)
-  return i;
-else
-  break;
-else
-  do
-  --n;
-while (n);
+    if (a)
+    return i;
+  else
+    break;
+  else
+    do
+  {
+    --n;
+    {
+    }
+  }
+  while (n);
+  goto out;
+}
 
-", 0%Z).
-Proof. split; [cbn; repeat split; solve [reflexivity | discriminate | lia]|vm_compute; reflexivity]. Qed.
+".
+Proof. split; [cbn; repeat split; solve [reflexivity | discriminate | lia]|]. eexists. split; [vm_compute; reflexivity|split; vm_compute; reflexivity]. Qed.
